@@ -354,4 +354,24 @@ def validOrder (g : Graph) (components : List (List Nat)) : Bool :=
     && components.flatten.all g.nodes.contains
     && compsOk g [] components
 
+/-- names of `comp` reachable from `x` by at most `n` edges that stay inside `comp` -/
+def reachSet (g : Graph) (comp : List Nat) (x : Nat) : Nat → List Nat
+  | 0 => [x]
+  | n + 1 =>
+    let s := reachSet g comp x n
+    (s ++ (s.flatMap g.refs).filter comp.contains).eraseDups
+
+/-- every member of `comp` is reachable from its first member and reaches it -/
+def sccOk (g : Graph) (comp : List Nat) : Bool :=
+  match comp with
+  | [] => true
+  | x :: rest =>
+    rest.all fun y =>
+      (reachSet g comp x comp.length).contains y && (reachSet g comp y comp.length).contains x
+
+/-- `validOrder`, and every component is strongly connected: the components
+are exactly the strongly connected components. -/
+def validScc (g : Graph) (components : List (List Nat)) : Bool :=
+  validOrder g components && components.all (sccOk g)
+
 end RotoV.Tarjan
